@@ -9,6 +9,7 @@ leaf operators.
 -/
 import OdlModel.Lemmas.OpAlgebra
 import OdlModel.Lemmas.OpDispatch
+import OdlModel.Lemmas.OpLeaves
 import Mathlib.Algebra.Field.Rat
 import Mathlib.Data.Complex.Basic
 
@@ -596,6 +597,38 @@ theorem C04.build_merged {K : Type} [Field K] [DecidableEq K]
       | sub => simp only [opAddVec] at h; split_ifs at h; cases h; simp [Impl.merged, h1]
       | rsub => simp only [opAddVec] at h; split_ifs at h; cases h; simp [Impl.merged, h3]
 
+/-! ### The leaf hypotheses discharged for the executable leaf zoo -/
+
+/-- `zoo_leaves_ok`: each concrete leaf map the driver executes (`LeafSpec.map`:
+ScalingOperator, IdentityOperator, PowerOperator, ShiftPower, MatrixOperator of any shape and
+entries, ConstantFunctional, ZeroFunctional; every size `n`, exponent `p`, scalar `c`) satisfies
+what `EnvOK` asks of a leaf with the flags the library gives it (`LeafSpec.info`): if flagged
+`is_linear` it is additive and homogeneous for ALL scalars, if a `Functional` it returns a
+scalar. -/
+theorem C04.zoo_leaves_ok {K : Type} [Field K] [DecidableEq K] (id : Nat) (s : LeafSpec K) :
+    ((s.info id).lin = true → IsLin allK s.map) ∧ ((s.info id).fn = true → ConstFam s.map) :=
+  leafSpec_ok id s
+
+/-- `build_sound_zoo`: UNCONDITIONAL soundness over the leaf zoo.  For every assignment of
+concrete leaves (`specs`), every expression over them (any depth, any scalars and vectors),
+if Python builds an object then its out-of-place value and its value in in-place operand
+order are the documented-table value at every point — no leaf hypothesis left. -/
+theorem C04.build_sound_zoo {K : Type} [Field K] [DecidableEq K]
+    (specs : Nat → LeafSpec K) (e : Expr K) (hz : ZooExpr specs e) (i : Impl K)
+    (h : build (zooEnv specs) e = some i) (x : Vec K) :
+    run (zooEnv specs) i x = den (zooEnv specs) e x ∧
+    runIn (zooEnv specs) i x = den (zooEnv specs) e x :=
+  ⟨C04.build_sound allK _ e (zoo_envOK specs e hz) i h x,
+   C04.build_sound_inplace allK _ e (zoo_envOK specs e hz) i h x⟩
+
+/-- `linear_flag_sound_zoo`: over the leaf zoo a set `is_linear` flag means the expression IS
+a linear map (additive, homogeneous for all scalars), unconditionally. -/
+theorem C04.linear_flag_sound_zoo {K : Type} [Field K] [DecidableEq K]
+    (specs : Nat → LeafSpec K) (e : Expr K) (hz : ZooExpr specs e) (i : Impl K)
+    (h : build (zooEnv specs) e = some i) (hl : i.lin = true) :
+    IsLin allK (den (zooEnv specs) e) :=
+  C04.linear_flag_sound allK _ e (zoo_envOK specs e hz) i h hl
+
 /-! ### Translator tie: the dispatch EXTRACTED from the source is the modelled dispatch -/
 
 /-- Induction behind `buildT_eq_build` (the invariant "built Functionals have field range"
@@ -843,3 +876,28 @@ example : ∃ i, build envQ (.sc .lmul (.sc .lmul (.sc .rmul (.sc .rmul P 5 true
       i = .lscal false (.rscal false (.leaf ⟨0, .vec 3, .vec 3, false, false⟩) (5 * 7)) (2 * 3) :=
   ⟨_, rfl, rfl, rfl⟩
 
+namespace OdlModel.C04
+/-- leaf 0: the matrix `[[1,2],[0,1],[3,0]]` (rn(2) → rn(3)), leaf 1: PowerOperator(rn(3), 2),
+leaf 2: ShiftPower(rn(3), 1) -/
+def specsQ : Nat → LeafSpec ℚ
+  | 0 => .mat 2 3 [[1, 2], [0, 1], [3, 0]]
+  | 1 => .pow 3 2
+  | _ => .shift 3 1
+def zQ : Expr ℚ :=
+  .sc .lmul (.bin .mul (.sc .rmul (.leaf ((specsQ 1).info 1)) 2 true)
+    (.bin .mul (.leaf ((specsQ 2).info 2)) (.leaf ((specsQ 0).info 0)))) 3 true
+end OdlModel.C04
+
+open OdlModel.C04 in
+/-- non-vacuity of the zoo theorems: `3 * ((Pow2 * 2) * (Shift * Mat))` is a zoo expression,
+builds, and at `x = (1, 1)` its first entry is `3 * (2 * 1)^2 = 12`. -/
+example : ZooExpr specsQ zQ ∧ ∃ i, build (zooEnv specsQ) zQ = some i ∧
+    run (zooEnv specsQ) i (fun _ => 1) 0 = 12 := by
+  have hz : ZooExpr specsQ zQ := ⟨rfl, rfl, rfl⟩
+  refine ⟨hz, ?_⟩
+  obtain ⟨i, hi, _⟩ := C04.build_total (zooEnv specsQ) zQ
+    (by simp [zQ, LeavesWf, specsQ, LeafSpec.info]) ⟨.vec 2, .vec 3, false⟩ rfl
+  refine ⟨i, hi, ?_⟩
+  rw [(C04.build_sound_zoo specsQ zQ hz i hi _).1]
+  simp [den, zQ, zooEnv, specsQ, LeafSpec.map, LeafSpec.info, dotFrom, powK]
+  norm_num
